@@ -68,6 +68,29 @@ def jsonable(x):
     return repr(x)
 
 
+class CaseTimeout(Exception):
+    """the implementation did not return within the per-case horizon (spin / livelock)"""
+
+
+import contextlib
+import signal
+
+
+@contextlib.contextmanager
+def time_limit(seconds):
+    """Explicit horizon for one execution: code that never goes quiescent (a loop whose exit condition a change has
+    broken) must become an observation, not a hung check.  Only usable in the worker's main thread."""
+    def handler(signum, frame):
+        raise CaseTimeout('no result after %ss' % seconds)
+    old = signal.signal(signal.SIGALRM, handler)
+    signal.setitimer(signal.ITIMER_REAL, seconds)
+    try:
+        yield
+    finally:
+        signal.setitimer(signal.ITIMER_REAL, 0)
+        signal.signal(signal.SIGALRM, old)
+
+
 class Ctx:
     """Per-shard accumulator handed to property modules."""
 
